@@ -67,7 +67,8 @@ CH_AXES = {
     "nch": [2, 3],
     # "list": plain numbers in the order of the detector's channels
     "wl": ["dict", "xarray", "list"],
-    "pol": ["vector", "dict", "xarray", "xarray-raw", "xarray-yxz"],
+    "pol": ["vector", "dict", "xarray", "xarray-raw", "xarray-yxz",
+            "xarray-yx"],
     "n": ["scalar", "dict", "xarray"],
     "r": ["scalar", "dict"],
     "alpha": ["scalar", "dict"],
@@ -256,6 +257,12 @@ def _mk_param(kind, table, labels, order, vec=False):
                             dims=["illumination", "vector"],
                             coords={"illumination": labels,
                                     "vector": ["x", "y", "z"]})
+    if kind == "xarray-yx":
+        # two labelled components, listed as y, x
+        full = xr.concat([to_vector(table[lab]) for lab in labels],
+                         xr.DataArray(labels, dims="illumination",
+                                      name="illumination"))
+        return full.sel(vector=["y", "x"])
     if kind == "xarray-yxz":
         # the same unit vectors with the components listed as y, x, z
         full = xr.concat([to_vector(table[lab]) for lab in labels],
